@@ -147,6 +147,11 @@ func (r *Run) execLookup(g *G, fr *Frame, x *ssa.Lookup) bool {
 
 // ---- range ----
 
+type stickyKey struct {
+	m *MapObj
+	n int
+}
+
 type rangeIter struct {
 	m     *MapObj
 	order []*MapEntry
@@ -184,7 +189,17 @@ func (r *Run) newIter(g *G, v Value, x *ssa.Range) *rangeIter {
 			}
 			if n := len(it.order); r.permuteMaps > 0 && n >= 2 && n <= r.permuteMaps && n <= 3 && permute {
 				perms := permTable[n]
-				k := r.decide("maporder", len(perms), nil, r.curPos(g))
+				// sticky: a map object iterated again with the same number of entries keeps the order
+				// chosen the first time in this run (fresh maps, e.g. each GetLeaves() result, choose anew)
+				key := stickyKey{b, n}
+				k, seen := r.stickyPerm[key]
+				if !seen {
+					k = r.decide("maporder", len(perms), nil, r.curPos(g))
+					if r.stickyPerm == nil {
+						r.stickyPerm = map[stickyKey]int{}
+					}
+					r.stickyPerm[key] = k
+				}
 				p := perms[k]
 				no := make([]*MapEntry, n)
 				for i, j := range p {
